@@ -25,7 +25,7 @@ fn main() {
         return;
     }
     let pki = match mode.as_str() {
-        "c19tls" | "c18" | "c18e2e" => Some(util::make_pki()),
+        "c19tls" | "c19reuse" | "c18" | "c18e2e" => Some(util::make_pki()),
         _ => None,
     };
     for line in stdin.lock().lines() {
@@ -36,6 +36,7 @@ fn main() {
             "c19info" => c19::c19info(&line),
             "c19conn" => rt.block_on(c19::c19conn(&line)),
             "c19tls" => rt.block_on(c19::c19tls(&line, pki.as_ref().unwrap())),
+            "c19reuse" => rt.block_on(c19::c19reuse(&line, pki.as_ref().unwrap())),
             "c18" => c18::c18(&line, pki.as_ref().unwrap()),
             "c18e2e" => c18::c18e2e(&line, pki.as_ref().unwrap()),
             m => panic!("unknown mode {m}"),
